@@ -14,12 +14,17 @@ from exabgp.bgp.message.update.nlri.qualifier import Labels
 from exabgp.protocol.family import AFI, SAFI
 from exabgp.protocol.ip import IPv4
 
+# (the /24 route becomes 10.0.0.0/24 with the second label read as prefix bits: mask 48 > 32 is refused; with a /0 .. /8 route it is accepted as another prefix)
+
 bad = 0
-for labels, action in (([0, 100], Action.ANNOUNCE), ([524288, 100], Action.WITHDRAW), ([3, 100], Action.ANNOUNCE)):
-    x = Label.from_cidr(CIDR.create_cidr(IPv4.pton('10.0.0.0'), 24), AFI.ipv4, SAFI.nlri_mpls, labels=Labels.make_labels(labels))
+for labels, action, mask in (([0, 100], Action.ANNOUNCE, 24), ([0, 100], Action.ANNOUNCE, 8), ([524288, 100], Action.WITHDRAW, 8), ([3, 100], Action.ANNOUNCE, 8)):
+    x = Label.from_cidr(CIDR.create_cidr(IPv4.pton('10.0.0.0'), mask), AFI.ipv4, SAFI.nlri_mpls, labels=Labels.make_labels(labels))
     wire = bytes(x.pack_nlri(Negotiated.UNSET))
-    y, left = NLRI.unpack_nlri(AFI.ipv4, SAFI.nlri_mpls, wire, action, False, Negotiated.UNSET)
-    same = (y == x) and y.labels.labels == x.labels.labels
+    try:
+        y, left = NLRI.unpack_nlri(AFI.ipv4, SAFI.nlri_mpls, wire, action, False, Negotiated.UNSET)
+        same = (y == x) and y.labels.labels == x.labels.labels
+    except Exception as exc:
+        y, same = 'refused: %s' % exc, False
     print('%-9s %-22s wire %s -> %s   %s' % (action.name if hasattr(action, 'name') else action, x, wire.hex(), y, 'ok' if same else 'VIOLATION: not the route that was encoded'))
     bad += not same
 assert bad == 0
